@@ -86,7 +86,7 @@ def run(ctx):
     ctx.count("modules_parsed", len(index.modules))
     ctx.count("start_modules", len(starts))
     ctx.count("import_events", sum(len(v) for v in machine.events.values()))
-    ctx.floor("non-test modules", len(starts), 85)
+    ctx.floor("non-test modules", len(starts), 44)
     ctx.explanation = (
         "Abstract interpretation of CPython's import protocol (sys.modules absent/loading/done, "
         "per-module bound-name sets, submodule bound on its parent only when it finishes) over the "
